@@ -282,6 +282,9 @@ func derivedByAdd(a ssa.Value, keys map[string]ssa.Value) bool {
 			return false
 		}
 		seen[v] = true
+		if _, isConst := v.(*ssa.Const); isConst {
+			return false
+		}
 		if _, ok := keys[vkey(v)]; ok {
 			return true
 		}
@@ -488,7 +491,13 @@ func (d *dlState) bounded(fn *ssa.Function, at ssa.Instruction, op ssa.Value, up
 		}
 		// normalise to  A (<|<=) B  /  A (>|>=) B
 		a, b, o := l.X, l.Y, l.Op
-		inChain := func(v ssa.Value) bool { _, ok := keys[vkey(v)]; return ok }
+		inChain := func(v ssa.Value) bool {
+			if _, isConst := v.(*ssa.Const); isConst {
+				return false // a constant that is one of the φ's inputs is not "the value": `n > 0` bounds nothing above
+			}
+			_, ok := keys[vkey(v)]
+			return ok
+		}
 		if upper {
 			// need  chainValue < X  or  chainValue <= X   (or mirrored)
 			if (o == token.LSS || o == token.LEQ) && (inChain(a) || derivedByAdd(a, keys)) {
